@@ -63,8 +63,8 @@ def main():
     broken = bool(obl["problems"]) or bool(res.disagreements) or not build.driver_ok
     if broken and not res.failures:
         # a theorem or the correspondence no longer checks: search harder for a concrete failing input
-        log(f"[{prop}] broken obligation/correspondence; searching for a failing input with the thorough budget")
-        ctx2 = Ctx(prop, "thorough", seed + 1, 1.0)
+        log(f"[{prop}] broken obligation/correspondence; searching for a failing input with three times the budget")
+        ctx2 = Ctx(prop, tier, seed + 1, 3.0)   # three times the budget of this tier, other seed
         ctx2.driver_ok = build.driver_ok
         ctx2.deep = True
         ctx2.focus = [d.get("input") for d in res.disagreements[:50]]
